@@ -278,6 +278,18 @@ def replay_helpers(ctx: Ctx, recs: List[Dict[str, Any]]) -> None:
     ctx.count(n=3)
     if not bool(((var - exp_var).abs() <= 1e-12).all()) or not bool(((vol - exp_var.sqrt()).abs() <= 1e-12).all()):
         ctx.violation("helper:realized_volatility", "realized volatility is not the square root of the annualised mean squared log return", {"var": var.tolist(), "vol": vol.tolist()})
+    # ... along the LAST axis of an input of any rank (documented shape (*, T)): one path (T,), and a stack (2, N, T)
+    for label, inp, exp in (("one path of shape (T,)", path[0], exp_var[0]), ("a stack of shape (2, N, T)", torch.stack([path, path.flip(0)]), torch.stack([exp_var, exp_var.flip(0)])),
+                            ("a (N, 1, T) batch", path.unsqueeze(1), exp_var.unsqueeze(1))):
+        for fname, e in (("realized_variance", exp), ("realized_volatility", exp.sqrt())):
+            ctx.count(n=1)
+            try:
+                got = getattr(F, fname)(inp, dt=0.25)
+            except Exception as ex:
+                ctx.violation(f"helper:{fname}:rank", f"{fname} raised {type(ex).__name__} on {label}", {"error": repr(ex)[:200]})
+                continue
+            if got.shape != e.shape or not bool(((got - e).abs() <= 1e-12).all()):
+                ctx.violation(f"helper:{fname}:rank", f"{fname} of {label} is not the annualised mean squared log return along the last axis", {"expected": e.tolist(), "observed": got.tolist(), "observed_shape": list(got.shape)})
 
 
 def check(ctx: Ctx) -> None:
